@@ -68,7 +68,52 @@ def mk_case(kind, im, bkg, rms, flood, seed, inside=None, extra=None):
     return c
 
 
+def build_large(g):
+    """deterministic large grids described by a few parameters (the case record stays small)"""
+    if g['name'] == 'strip':
+        # a thin strip with ONE long ridge (own extent >= 2^16 + 1 along the long axis) wandering between two rows,
+        # one seed pixel on it, and a few small islands (seeded and not) elsewhere
+        H, W = g['short'], g['long']
+        snr = np.zeros((H, W))
+        cols = np.arange(g['c0'], g['c1'] + 1)
+        rows = 2 + ((cols // g['period']) % 2)
+        snr[rows, cols] = 4.5
+        snr[rows[g['seed_at']], cols[g['seed_at']]] = 9.0
+        for k, cc in enumerate(g['extras']):
+            snr[0, cc:cc + 3] = 4.5
+            snr[0, cc + 1] = 7.0 if k % 2 == 0 else 4.5
+            snr[H - 1, cc] = 6.0 if k % 2 else 4.0
+        bkg = np.full((H, W), 0.5)
+        rms = np.full((H, W), 2.0)
+        im = bkg + np.where((np.arange(W) % 3 == 0)[None, :], -1.0, 1.0) * snr * rms
+        if g.get('T'):
+            im, bkg, rms = im.T.copy(), bkg.T.copy(), rms.T.copy()
+        return im, bkg, rms
+    if g['name'] == 'lattice':
+        # exactly N isolated single-pixel groups at even coordinates, in raster order; every third one unseeded,
+        # the last one seeded
+        N, per_row = g['N'], g['per_row']
+        nr = (N + per_row - 1) // per_row
+        H, W = 2 * nr + 1, 2 * per_row + 1
+        snr = np.zeros((H, W))
+        k = np.arange(N)
+        vals = np.where(k % 3 == 1, 4.5, 6.0)
+        vals[-1] = 8.0
+        snr[2 * (k // per_row) + 1, 2 * (k % per_row)] = vals
+        return snr.copy(), np.zeros((H, W)), np.ones((H, W))
+    raise ValueError(g['name'])
+
+
+def large_case(g, flood=4.0, seed=5.0, variant='f64-C'):
+    im, _, _ = build_large(g)
+    return dict(kind='large-' + g['name'], gen=g, H=int(im.shape[0]), W=int(im.shape[1]), flood=common.f2h(flood),
+                seed=common.f2h(seed), inside=None, variant=variant)
+
+
 def arrays(c):
+    if 'gen' in c:
+        im, bkg, rms = build_large(c['gen'])
+        return im, bkg, rms, common.h2f(c['flood']), common.h2f(c['seed']), None
     H, W = c['H'], c['W']
     im = np.array([common.h2f(x) for x in c['im']], dtype=np.float64).reshape(H, W)
     bkg = np.array([common.h2f(x) for x in c['bkg']], dtype=np.float64).reshape(H, W)
@@ -81,6 +126,10 @@ def arrays(c):
 
 def case_key(c):
     h = hashlib.sha1()
+    if 'gen' in c:
+        import json
+        h.update(json.dumps(c['gen'], sort_keys=True).encode())
+        return h.hexdigest()[:16]
     for k in ('im', 'bkg', 'rms'):
         h.update(''.join(c[k]).encode())
     h.update((c['flood'] + c['seed'] + str(c['H']) + 'x' + str(c['W']) + str(c.get('inside'))).encode())
@@ -89,6 +138,8 @@ def case_key(c):
 
 def pretty(c):
     """small human-readable rendering for replay files"""
+    if 'gen' in c:
+        return dict(generated_by='harness/corr_C02.py:build_large', parameters=c['gen'])
     im, bkg, rms, flood, seed, inside = arrays(c)
     with np.errstate(all='ignore'):
         snr = np.abs(im - bkg) / rms
@@ -776,8 +827,53 @@ def run(ctx):
         judge_sequence(ctx, with_history([c])[0], [seed, seed + 1.0, seed], 'f64-C')
     seed_monotone_pairs(ctx, rng, 300 if ctx.quick else 5000)
     shrink_failures(ctx)
+    evaluate_large(ctx, large_cases(ctx))
     if not ctx.quick:
         finder_runs(ctx, rng, 30, with_region=False)
+
+
+def large_cases(ctx):
+    """one deliberately LARGE case per size-like dimension: island extent (> 2^16 along either axis) and number of
+    flood groups (2^16 and its neighbours).  Sizes just above powers of two, not multiples of usual block sizes."""
+    out = []
+    for T in (False, True):
+        out.append(large_case(dict(name='strip', short=6, long=70001, c0=3, c1=69990, period=1009, seed_at=65600,
+                                   extras=[10, 30011, 65530, 69995], T=T),
+                              variant='mix:f4,f8,f8' if T else 'f64-C'))
+    ns = [65536] if ctx.quick else [65535, 65536, 65537, 131072 + 1]
+    for N in ns:
+        out.append(large_case(dict(name='lattice', N=N, per_row=251)))
+    return out
+
+
+def evaluate_large(ctx, cases):
+    """large grids: implementation vs the Python Spec oracle (the Lean model is size-independent; the interpreted
+    driver is not used for half a million pixels)"""
+    for c in cases:
+        im, bkg, rms, flood, seed, _ = arrays(c)
+        want, comps = oracle(im, bkg, rms, flood, seed, None)
+        try:
+            impl = run_impl(im, bkg, rms, flood, seed, variant=variant_of(c))
+        except InputMutated as e:
+            report_mutation(ctx, c, e)
+            impl = e.canon
+        except Exception as e:
+            ctx.fail('spec', dict(c, pretty=pretty(c)), f"find_islands raised {type(e).__name__}: {e} on a {im.shape} image",
+                     dict(site='find_islands', clause='raises', large=c['gen']['name']))
+            impl = None
+        if impl is not None:
+            probs = classify(impl, want, comps, im)
+            if probs:
+                ctx.fail('spec', dict(c, pretty=pretty(c)),
+                         dict(problems=probs[:6], shape=list(im.shape), flood_groups=len(comps), spec_islands=len(want),
+                              reported_islands=len(impl),
+                              implementation=[dict(box=d['box'], npix=len(d['pix']), mask_shape=d['mshape']) for d in impl[:5]],
+                              spec=[dict(box=w[0], npix=len(w[1])) for w in want[:5]]),
+                         dict(site='find_islands', clause=sorted({p['clause'] for p in probs})[0], large=c['gen']['name']))
+        ctx.count('large:' + c['gen']['name'])
+        ctx.case(dict(kind=c['kind'], H=c['H'], W=c['W'], flood_groups=len(comps), islands=len(want),
+                      longest_island_extent=max([max(w[0][1] - w[0][0], w[0][3] - w[0][2]) for w in want] + [0])),
+                 nontrivial_key=case_key(c) if len(comps) >= 2 and any(not k['seeded'] for k in comps) else None)
 
 
 def fresh_process_fails(c):
@@ -906,6 +1002,9 @@ def replay(ctx, rec):
     c = {k: v for k, v in rec['case'].items() if k != 'pretty'}
     if c.get('finder'):
         finder_one(ctx, c, report=True)
+        return
+    if 'gen' in c:
+        evaluate_large(ctx, [c])
         return
     if c.get('history') == 'after-fit':       # re-create the history the case was observed under
         prime_fit(ctx)
